@@ -510,11 +510,6 @@ impl SrtpContext {
             ]);
             let index = index_with_e & 0x7FFF_FFFF;
 
-            // Replay check
-            if index > self.rtcp_index {
-                self.rtcp_index = index;
-            }
-
             let nonce = self.build_gcm_rtcp_nonce(index);
             let cipher = self
                 .rtcp_gcm_cipher
@@ -539,6 +534,12 @@ impl SrtpContext {
             let plaintext = cipher
                 .decrypt(Nonce::from_slice(&nonce), payload)
                 .map_err(|_| SrtpError::AuthenticationFailed)?;
+
+            // Track the highest index seen, but only once the packet has
+            // authenticated: a forged packet must not move receiver state.
+            if index > self.rtcp_index {
+                self.rtcp_index = index;
+            }
 
             // Reconstruct packet: Header || Plaintext
             packet.truncate(8);
